@@ -6,6 +6,7 @@ CONSTANTS
   KR = 2
   WPats <- NoPats
   RPats <- NoPats
+  QueueCap = 250
   Chunk = 4096
   SendMech = "repaired"
   RecvMech = "repaired"
